@@ -106,7 +106,10 @@ def w1(ctx, Fr, F):
             continue
         ranges, sym = loop_var_ranges(fn, Fr) if fn.get("hir") else ({}, None)
         k_in_fn = 0
+        live = mir.Cfg(fn).reachable(0)
         for bi, b in enumerate(fn["mir"]["blocks"]):
+            if bi not in live:
+                continue      # e.g. the body of `if cfg!(debug_assertions) {..}` in this configuration
             t = b["term"]
             if t["k"] == "Assert" and t["msg"].startswith("Overflow"):
                 debug_only += 1     # exists only in overflow-checking builds: listed, not an obligation (DESIGN §4 C17)
